@@ -115,7 +115,10 @@ pub fn new(parameters: &RawParameters, _ctx: &dyn Context) -> Result<Op, Error> 
 
     // We may use `ellps, da, df`, to parameterize the op, but `ellps_0, ellps_1`
     // is a more likely set of parameters to come across in real life.
-    if params.given.contains_key("ellps_0") && params.given.contains_key("ellps_1") {
+    // The ellipsoids may be given in any of the ways supported (`ellps` for `ellps_0`,
+    // defaults, values forwarded from an enclosing macro), so we look at the resulting
+    // ellipsoids rather than at how they were spelled. Explicitly given differences win
+    if params.real("da")? == 0.0 && params.real("df")? == 0.0 {
         let da = ellps_1.semimajor_axis() - ellps_0.semimajor_axis();
         let df = ellps_1.flattening() - ellps_0.flattening();
         params.real.insert("da", da);
